@@ -134,6 +134,17 @@ class C15(core.Check):
                               ("decl", "Signal", "r1", ("call", "thk", [V("a"), V("kk")])),
                               ("decl", "Signal", "r2", ("call", "thk", [B("+", V("c"), I(1)), I(3)]))]),
                     "inputs": ["a", "c"], "outputs": ["r1", "r2"]})
+        # two differently named parameters bound to the SAME caller value (wire-mergeable: input / constant)
+        tot = ("func", "total", [("Signal", "p"), ("Signal", "q")], [], B("+", V("p"), V("q")))
+        twice = ("func", "twice", [("Signal", "v")], [], ("call", "total", [V("v"), V("v")]))
+        for tag, body in (
+            ("alias-args", [tot, ("decl", "Signal", "r1", B("*", ("call", "total", [V("a"), V("a")]), I(3)))]),
+            ("alias-args-nested", [tot, twice, ("decl", "Signal", "r1", ("proj", ("call", "twice", [V("a")]), "signal-O"))]),
+            ("alias-args-const", [tot, ("decl", "Signal", "k5", ("lit", "signal-A", I(5))), ("decl", "Signal", "r1", B("+", ("call", "total", [V("k5"), V("k5")]), V("a")))]),
+            ("alias-args-distinct", [tot, ("decl", "Signal", "r1", B("*", ("call", "total", [V("a"), V("c")]), I(3)))]),
+        ):
+            out.append({"f": tag, "args": "same-value-twice", "ctx": "once", "stmts": gen.prog_with_inputs(["a", "c"], pre + body),
+                        "inputs": ["a", "c"], "outputs": ["r1"]})
         for name, body in ENTITY_PROGS.items():
             out.append({"f": name, "args": "-", "ctx": "entity", "stmts": gen.prog_with_inputs(["a"], body),
                         "inputs": ["a"], "outputs": []})
